@@ -15,6 +15,11 @@ pub fn main_with(defs: Vec<PropDef>) -> ! {
     let args: Vec<String> = std::env::args().skip(1).collect();
     let worker = args.first().map(|a| a == "--worker").unwrap_or(false);
     let args: Vec<String> = if worker { args[1..].to_vec() } else { args };
+    if args.first().map(|a| a == "gen-seeds").unwrap_or(false) {
+        let dir = std::path::PathBuf::from(args.get(1).cloned().unwrap_or_else(|| "gen".into()));
+        crate::fuzz_entry::write_seed_corpus(&dir).expect("write seeds");
+        std::process::exit(0);
+    }
     if args.len() < 2 {
         usage()
     }
